@@ -800,6 +800,7 @@ static int cfg_init_defaults(cfg_t *cfg)
 				} else {
 					cfg_scan_fp_begin(fp);
 
+					errno = 0;
 					do {
 						ret = cfg_parse_internal(cfg, 1, xstate, &cfg->opts[i]);
 						xstate = -1;
@@ -808,6 +809,10 @@ static int cfg_init_defaults(cfg_t *cfg)
 					cfg_scan_fp_end();
 					fclose(fp);
 				}
+
+				/* Running out of memory is not a programming error */
+				if (ret == STATE_ERROR && errno == ENOMEM)
+					return CFG_FAIL;
 
 				if (ret == STATE_ERROR) {
 					/*
